@@ -76,7 +76,7 @@ class Codec:
             r = rng.random()
             s = self.tok_string() if r < 0.35 else (self.csi_string() if r < 0.8 else (
                 self.tok_string('\x1b[0123456789;mHK @~?ab\n', 14) if r < 0.92 else self.tok_string('\x1b[\x9b\x9d\x901;m a', 9)))
-        allow, acc = flags if flags else rng.choice([(True, None), (False, None), (False, 'm'), (True, 'm'), (True, 'mJ'), (False, 'HJ'), (False, '~m'), (True, '@')])
+        allow, acc = flags if flags else rng.choice([(True, None), (False, None), (False, 'm'), (True, 'm'), (True, 'mJ'), (False, 'HJ'), (False, '~m'), (True, '@'), (True, ''), (False, '')])
         inp = P.line('tokenize', P.e_str(s), P.e_bool(allow), P.e_optstr(acc))
         PS = self.mod.ParsedAnsiControlSequenceString
         out = call(lambda: PS(s, allow, acc))
@@ -123,6 +123,12 @@ class Codec:
         args = [rng.choice([0, 1, 2, 7, 10, 255, -1, 10 ** 30, rng.randint(0, 500)]) for _ in range(nargs)]
         import ansi_string.ansi_string as core
         fn = getattr(core, name)
+        if rng.random() < 0.08:
+            # the result is a function of the arguments of *this* call: equal-comparing floats first, then the ints
+            fl = [float(a) for a in args]
+            r0 = call(lambda: fn(*fl))
+            if r0[0] == 'ok' and r0[1] != '\x1b[' + ';'.join(str(a) for a in fl) + self.FINAL[name]:
+                self.emit('noop', None, None, '%s%r' % (name, fl), [('C19', 'helper_one_sequence', '%s%r -> %r' % (name, fl, r0[1]))])
         inp = P.line('helper', [k, nargs], args)
         out = call(lambda: fn(*args))
         viol = []
@@ -149,7 +155,8 @@ class Codec:
             if q < 0.4: out.append(rng.choice([1, 2, 3, 4, 21, 22, 23, 24, 31, 34, 39, 42, 49, 10, 11, 12, 53, 55, 9, 29, 26, 50, 51, 54, 58, 59, 90, 107]))
             elif q < 0.5: out.append(0)
             elif q < 0.62: out += [rng.choice([38, 48, 58]), 5, rng.choice([0, 9, 255, 256, 300])]
-            elif q < 0.72: out += [rng.choice([38, 48, 58]), 2, rng.choice([0, 255, 256]), rng.randrange(256), rng.randrange(256)]
+            elif q < 0.68: out += [rng.choice([38, 48, 58]), 2, rng.choice([0, 255, 256]), rng.randrange(256), rng.randrange(256)]
+            elif q < 0.72: out += [rng.choice([38, 48, 58]), 2] + [rng.choice([38, 48, 58, 2, 5, 0, 200]) for _ in range(3)]   # arguments that look like another group
             elif q < 0.80: out += rng.choice([[38], [48, 5], [58, 2, 1], [38, 7], [38, 2, 1, 2], [38, 38, 5, 1], [38, 5], [48, 2]])
             elif q < 0.92: out.append(rng.choice([77, 256, 1000, 56, 60, 5, 6, 7, 8]))
             else: out.append(rng.randint(0, 110))
@@ -417,6 +424,9 @@ class Codec:
         F = self.mod.AnsiFormat
         A = self.mod.AnsiString
         names = list(F.__members__)
+        if name is None and rng.random() < 0.15:
+            digit = [n for n in names if any(ch.isdigit() for ch in n)]
+            name = rng.choice(digit) if digit else None
         if name is None and rng.random() < 0.5:
             multi = [n for n in names if any(';' in str(q) for q in F.__members__[n].ansi_settings) or len(F.__members__[n].ansi_settings) > 1]
             name = rng.choice(multi) if multi else None
